@@ -73,7 +73,7 @@ package bpv7
 // Bundle (BPv7 4.2 / 4.3): at least one canonical block; unique block numbers; at most one block per type; the
 // payload block last; every block valid; administrative records and anonymous bundles carry no block that requests a
 // status report; a zero creation time only with a bundle age block; lifetime not exceeded.
-// govc:func (Bundle).CheckValid property C02
+// govc:func (Bundle).CheckValid property C02 C04
 //@ requires blocksNonNil(b)
 //@ ensures errs == nil ==> len(b.CanonicalBlocks) >= 1
 //@ ensures errs == nil ==> pbOK(b.PrimaryBlock)
